@@ -96,7 +96,7 @@ pub fn token_program(r: &mut Rng, budget: &mut i32, depth: u32, out: &mut String
             }
             13 => {
                 // comment characters
-                out.push(*r.pick(&['a', ' ', '\n', '#', 'é', '✓']));
+                out.push(comment_char(r));
             }
             _ => out.push(if r.chance(1, 2) { '+' } else { '-' }),
         }
@@ -110,6 +110,24 @@ fn token_balanced_inner(r: &mut Rng, budget: &mut i32, _depth: u32, out: &mut St
         out.push_str("[->+<]");
     } else {
         out.push_str("[-<++>]");
+    }
+}
+
+/// A non-command character: the ASCII neighbours of the eight commands (`*` `/` `:` `;` `=` `?` `Z` `\\` `^`
+/// …) are as likely as letters, control characters, other ASCII and multi-byte characters.
+pub fn comment_char(r: &mut Rng) -> char {
+    loop {
+        let c = match r.below(6) {
+            0 => *r.pick(&['*', '/', ':', ';', '=', '?', 'Z', '\\', '^', '@', '_', '(', ')', '{', '}', '!', '0', '9']),
+            1 => *r.pick(&['a', ' ', '\n', '\t', '#', 'x']),
+            2 => char::from_u32(r.below(128) as u32).unwrap(),
+            3 => *r.pick(&['é', '✓', '\u{1F600}', 'ß', '\u{5B57}', '\u{80}', '\u{7FF}', '\u{800}', '\u{FFFF}', '\u{10000}']),
+            4 => char::from_u32(0x80 + r.below(0x700) as u32).unwrap_or('é'),
+            _ => '\\',
+        };
+        if !"+-<>.,[]".contains(c) && c != '\0' {
+            return c;
+        }
     }
 }
 
@@ -204,6 +222,33 @@ impl<'a> Structured<'a> {
                 .collect();
             let c = *self.r.pick(&[0i64, 0, 1, 2, -1, 5]);
             self.assign(x, &terms, c);
+        } else if p < 56 {
+            // x := y * z (also squares), by the nested-loop idiom; y and z are preserved
+            let x = self.r.below(NC as u64) as i64;
+            let y = self.r.below(NC as u64) as i64;
+            let z = if self.r.chance(1, 2) { y } else { self.r.below(NC as u64) as i64 };
+            if x != y && x != z {
+                self.clear(x);
+                self.moveadd(y, &[(S0, 1), (S1, 1)]);
+                self.moveadd(S1, &[(y, 1)]);
+                self.go(S0);
+                self.out.push_str("[-");
+                self.moveadd(z, &[(x, 1), (S1, 1)]);
+                self.moveadd(S1, &[(z, 1)]);
+                self.go(S0);
+                self.out.push(']');
+                if self.r.chance(1, 3) {
+                    // consume an operand afterwards (zero store right after the product)
+                    self.clear(y);
+                }
+            }
+        } else if p < 58 {
+            // filler: print a cell many times (long live ranges)
+            let x = self.r.below(NC as u64) as i64;
+            self.go(x);
+            for _ in 0..(8 + self.r.below(14)) {
+                self.out.push('.');
+            }
         } else if p < 60 {
             let x = self.r.below(NC as u64) as i64;
             let k = *self.r.pick(&[1i64, 2, 3, -1, -2, 7]);
@@ -271,6 +316,68 @@ pub fn structured(r: &mut Rng) -> String {
 }
 
 /// Programs that roam far: long walks left/right, scans, revisits.
+/// Feeding loops: a few input cells, then several distribution loops `[->a+b++<]` whose targets are the
+/// sources of later ones, then every cell is printed. After optimisation these are multiply-add chains with
+/// many values live at once and several of them dying at the same instruction (spill-slot reuse in
+/// `allocate_temps`, simultaneous assignments in the optimiser).
+pub fn feeding(r: &mut Rng) -> String {
+    let n = 3 + r.below(4) as i64;
+    let mut s = String::new();
+    let mut pos: i64 = 0;
+    let go = |s: &mut String, pos: &mut i64, t: i64| {
+        while *pos < t {
+            s.push('>');
+            *pos += 1;
+        }
+        while *pos > t {
+            s.push('<');
+            *pos -= 1;
+        }
+    };
+    for i in 0..n {
+        go(&mut s, &mut pos, i);
+        if r.chance(9, 10) {
+            s.push(',');
+        } else {
+            for _ in 0..1 + r.below(5) {
+                s.push('+');
+            }
+        }
+    }
+    let width = n + 2;
+    let mut last_targets: Vec<i64> = Vec::new();
+    for _ in 0..2 + r.below(3) {
+        // chain: mostly continue from a cell the previous loop added to
+        let src = if !last_targets.is_empty() && r.chance(3, 4) {
+            *r.pick(&last_targets)
+        } else {
+            r.below(n as u64) as i64
+        };
+        last_targets.clear();
+        go(&mut s, &mut pos, src);
+        s.push_str("[-");
+        for _ in 0..2 + r.below(3) {
+            let mut t = r.below(width as u64) as i64;
+            if t == src {
+                t = (t + 1) % width;
+            }
+            last_targets.push(t);
+            go(&mut s, &mut pos, t);
+            let c = if r.chance(1, 5) { '-' } else { '+' };
+            for _ in 0..1 + r.below(4) {
+                s.push(c);
+            }
+        }
+        go(&mut s, &mut pos, src);
+        s.push(']');
+    }
+    for i in 0..width {
+        go(&mut s, &mut pos, i);
+        s.push('.');
+    }
+    s
+}
+
 pub fn roaming(r: &mut Rng) -> String {
     let mut s = String::new();
     let segs = 1 + r.below(5);
@@ -358,10 +465,9 @@ pub fn arbitrary_text(r: &mut Rng) -> String {
             5 => ',',
             6 | 7 => '[',
             8 | 9 => ']',
-            10 => 'x',
-            11 => 'é',
-            12 => '✓',
-            _ => '\u{1F600}',
+            10 | 11 => comment_char(r),
+            12 => '\\',
+            _ => comment_char(r),
         };
         s.push(c);
     }
@@ -373,7 +479,7 @@ pub fn with_comments(r: &mut Rng, prog: &str) -> String {
     let mut s = String::new();
     for c in prog.chars() {
         while r.chance(1, 4) {
-            s.push(*r.pick(&['a', ' ', '\n', 'é', '✓', '\u{1F600}', '(', '0']));
+            s.push(comment_char(r));
         }
         s.push(c);
     }
@@ -408,6 +514,36 @@ pub fn maybe_divergent(r: &mut Rng) -> String {
     };
     if r.chance(1, 4) {
         return base;
+    }
+    if r.chance(1, 3) {
+        // a loop on an input-dependent cell with a constant step (odd: always terminates; even: diverges for
+        // some inputs), a body made of loop-invariant stores, ordinary updates and possibly output
+        let mut s = String::new();
+        if r.chance(1, 2) {
+            s.push_str(&base);
+        }
+        s.push(',');
+        if r.chance(1, 3) {
+            s.push('.');
+        }
+        s.push('[');
+        for _ in 0..r.below(3) {
+            match r.below(5) {
+                0 => s.push_str(">[-]+<"),
+                1 => s.push_str(">[-]++<"),
+                2 => s.push_str(">+<"),
+                3 => s.push_str(">>[-]<<"),
+                _ => s.push_str(if r.chance(1, 4) { ">.<" } else { ">>+<<" }),
+            }
+        }
+        let step = 1 + r.below(8);
+        let c = if r.chance(1, 2) { '-' } else { '+' };
+        for _ in 0..step {
+            s.push(c);
+        }
+        s.push(']');
+        s.push_str(*r.pick(&[">.", "+.", ">>.", ".>."]));
+        return s;
     }
     let inj: &str = *r.pick(&[
         "+[]",
